@@ -16,6 +16,7 @@ def run(ctx):
                 "(forest, name concretisation)")
     ctx.assumptions += ["a filed variant object is re-added only to its own container or below itself (scope of the statement)",
                         "bottom-up construction (sub-trees built on a variant outside the forest, then attached) is explored on its own 8-object pool",
+                        "add()'s optional variant_id (the variant's id, its UID, another name) is explored on its own 5-object pool",
                         "get_variants: only the clauses of the statement are checked (no duplicates, UID order, arch/type "
                         "membership, no filter = everything); which filtered sub-trees recursion enters is left open"]
     import concurrent.futures
@@ -25,8 +26,15 @@ def run(ctx):
     # its own pool, scope switch on
     bottom_up = base.replace("Obj <- MCObj", "Obj <- MCObj3").replace("BottomUp = FALSE", "BottomUp = TRUE")
 
+    # the optional variant_id of add(): every key form on a five-object pool
+    keys = base.replace("Obj <- MCObj", "Obj <- MCObj4").replace('KeyForms = {"id"}', 'KeyForms = {"id", "uid", "other"}')
+
     def mc(job):
         dev, invs = job
+        if dev == "KeyForms":
+            return job, ctx.tlc("MC_Forest", cfg_text=keys, must_cover=["Next"], workers=2)
+        if dev == "Dev_KeyUnchecked":
+            return job, ctx.tlc("MC_Forest", cfg_text=keys.replace(dev + " = FALSE", dev + " = TRUE"), expect_error=True, count=False, workers=2)
         if dev is None:
             return job, ctx.tlc("MC_Forest", "MC_Forest.cfg", must_cover=["Next"], workers=4)
         if dev == "BottomUp":
@@ -35,9 +43,10 @@ def run(ctx):
             return job, ctx.tlc("MC_Forest", cfg_text=bottom_up.replace(dev + " = FALSE", dev + " = TRUE"), expect_error=True, count=False, workers=2)
         return job, ctx.tlc("MC_Forest", cfg_text=base.replace(dev + " = FALSE", dev + " = TRUE"), expect_error=True, count=False, workers=3)
     with concurrent.futures.ThreadPoolExecutor(max_workers=8) as ex:
-        results = list(ex.map(mc, [(None, None), ("BottomUp", None)] + DEVS + [("Dev_UidSubtreeUnchecked", {"UidUnique", "Findable"})]))
+        results = list(ex.map(mc, [(None, None), ("BottomUp", None), ("KeyForms", None)] + DEVS
+                              + [("Dev_UidSubtreeUnchecked", {"UidUnique", "Findable"}), ("Dev_KeyUnchecked", {"KeyIsId", "OnceEach", "Findable"})]))
     for (dev, invs), r in results:
-        if dev in (None, "BottomUp"):
+        if dev in (None, "BottomUp", "KeyForms"):
             ctx.require_ok(r)
             continue
         if r.violated not in invs:
@@ -53,6 +62,11 @@ def run(ctx):
                            on_emit=bu.append, count=False))
     ctx.notes["distinct_forests_bottom_up"] = len(bu)
     states += bu
+    ky = []
+    ctx.require_ok(ctx.tlc("ForestGen", cfg_text=gen_base.replace("Obj <- MCObj", "Obj <- MCObj4")
+                           .replace('KeyForms = {"id"}', 'KeyForms = {"id", "uid", "other"}'), on_emit=ky.append, count=False))
+    ctx.notes["distinct_forests_key_forms"] = len(ky)
+    states += ky
     if not ctx.quick:
         cfg2 = open(core.os.path.join(core.SPEC_DIR, "ForestGen.cfg")).read().replace("Obj <- MCObj", "Obj <- MCObj2")
         more = []
